@@ -16,7 +16,7 @@ from concurrent.futures import ThreadPoolExecutor
 
 VERIF = os.path.dirname(os.path.dirname(os.path.abspath(__file__)))
 SPEC = os.path.join(VERIF, "spec")
-EVID = os.path.join(VERIF, "evidence")
+EVID = os.environ.get("VERIF_EVIDENCE_DIR") or os.path.join(VERIF, "evidence")     # calibration runs on scratch copies write elsewhere
 REPLAYS = os.path.join(EVID, "replays")
 REPO = os.environ.get("VERIF_REPO", "/repo")
 SEED = int(os.environ.get("VERIF_SEED", "0") or 0)
